@@ -608,6 +608,7 @@ def run(ctx, rep):
     from . import c06
 
     c06.rule_iterloop(ctx, rep)  # lying iterators: the fill loop stores every item it takes, or panics
+    c06.rule_lenflow(ctx, rep)  # ... and lying containers: one length value (one call of a caller-implemented view) sizes the block and bounds the copy
     from . import c05 as _c05
 
     _c05.rule_layout(ctx, rep)  # ... into a block that really has room for the reported number of items (or the constructor panicked): the requested layout, evaluated on the shape matrix of each target width
@@ -642,6 +643,7 @@ def main(argv):
             "state a panicking callback leaves in its own data."
             ' Added later: R-PAYLOAD-DUP (user code unwinding while a value exists both in its block and as a bitwise copy), R-LAYOUT as a premise (the block really has room for the reported number of items, on every target width analysed; configuration arm32 included).'
             ' R-PAYLOAD-GAP.'
+            ' Round fifteen: R-LENFLOW as a premise (one call of a caller-implemented view sizes the block and bounds the copy).'
         ),
         rule_text="instances = (rule, API body or site); R-UNW instances are API bodies having at least one unwinding path",
         trusted_base=["rustc nightly MIR construction, drop elaboration (cleanup edges) and trait resolution", "std model table analysis/model.py (which std calls may unwind)", "panic while unwinding aborts"],
